@@ -336,7 +336,7 @@ def leanchecker(prop):
 
 def _run_one_batch(args):
     exe, lines, env = args
-    p = subprocess.run([exe] + (['world'] if exe.endswith('tmodel') else []), input='\n'.join(lines) + '\n',
+    p = subprocess.run([exe] + ([env.get('TMODEL_MODE', 'world')] if exe.endswith('tmodel') else []), input='\n'.join(lines) + '\n',
                        stdout=subprocess.PIPE, stderr=subprocess.PIPE, universal_newlines=True, env=env)
     return p.returncode, p.stdout, p.stderr
 
@@ -357,7 +357,7 @@ def split_outputs(out, n):
     return res[:n], tail
 
 
-def run_scripts(exe, scripts, nbatch=None, timeout=None):
+def run_scripts(exe, scripts, nbatch=None, timeout=None, mode='world'):
     """scripts: list of lists of lines.  Returns list of (lines | None, crashinfo | None)."""
     if not scripts:
         return []
@@ -367,6 +367,7 @@ def run_scripts(exe, scripts, nbatch=None, timeout=None):
     env = dict(os.environ)
     env['ASAN_OPTIONS'] = 'detect_leaks=1:abort_on_error=0:exitcode=97:detect_stack_use_after_return=1'
     env['UBSAN_OPTIONS'] = 'print_stacktrace=1:halt_on_error=1'
+    env['TMODEL_MODE'] = mode
     results = []
     jobs = []
     for b in batches:
@@ -393,7 +394,7 @@ def run_scripts(exe, scripts, nbatch=None, timeout=None):
     return results
 
 
-def run_scripts_robust(exe, scripts):
+def run_scripts_robust(exe, scripts, mode='world'):
     """like run_scripts, but (a) a crash inside a batch is confirmed by running that script alone (an
     earlier script of the batch may have left process-wide state behind; the isolated run is what
     counts) and (b) scripts that were not reached because their batch aborted are re-run."""
